@@ -78,6 +78,10 @@ type World struct {
 	note     string          // context put in front of every report (e.g. "after MempoolLoad refused …")
 	mid      string          // "" | "mined" | "undone": verify() runs inside a commit, after that kind of callback
 
+	// wall-clock time: the harness's own ledger of the Lastseen it has given to pooled records (Unix seconds, as the pool
+	// file stores them). A record not in here was last seen "now" (entered the pool or was announced again during this run).
+	old map[[32]byte]int64
+
 	conf    map[string]uint64 // confirmedSet's cache
 	confTx  map[string]bool
 	confKey string
@@ -105,7 +109,7 @@ func hid(h [32]byte) string { return hex.EncodeToString(h[:]) }
 func newWorld(r *vlib.Run, g *vlib.Rng, name string, notFullRBF bool) *World {
 	defer prof("newWorld")()
 	w := &World{r: r, g: g, name: name, txs: map[[32]byte]*txInfo{}, ledger: map[btc.TxPrevOut]*chainkit.Coin{}, keys: map[string]*chainkit.Key{}, notFullRBF: notFullRBF,
-		twins: map[[32]byte][]*txInfo{}, cbTold: map[[32]byte]bool{}}
+		twins: map[[32]byte][]*txInfo{}, cbTold: map[[32]byte]bool{}, old: map[[32]byte]int64{}}
 	w.gv = g.Fork()
 	w.gm = w.gv.Fork()
 	w.midProb = 100
@@ -138,7 +142,7 @@ func newWorld(r *vlib.Run, g *vlib.Rng, name string, notFullRBF bool) *World {
 	common.CFG.TXPool.MaxTxWeight = 400e3
 	common.CFG.TXPool.RejectRecCnt = ringCap
 	common.CFG.TXPool.SaveOnDisk = true
-	common.TxExpireAfter = 14 * 24 * time.Hour
+	common.TxExpireAfter = expireAfter
 	common.MaxRejectedSizeBytes = 1 << 40
 	common.MaxNoUtxoSizeBytes = 1 << 40
 	common.VerifSetTxPoolLimits(1<<40, 1000)
@@ -360,6 +364,7 @@ func (w *World) submit(ti *txInfo, mode string) (code int) {
 	minfee := common.MinFeePerKB()
 	tx := ti.fresh()
 	bidx := tx.Hash.BIdx()
+	delete(w.old, tx.Hash.Hash) // (needThisTxExt: a pooled tx that is announced again has been seen now)
 	var want string
 	real := -1
 	var pan string
@@ -649,17 +654,29 @@ func (w *World) mine(cands []*txInfo) bool {
 // undoBare disconnects the last harness block exactly as the text-UI command `undo` does (client/usif/textui
 // undo_block): BlockCommitInProgress(true), Chain.UndoLastBlock (→ BlockUndone), BlockCommitInProgress(false),
 // common.Last. The state after it is a state of the property's quantifier ("undone blocks"): it is verified.
-func (w *World) undoBare() bool {
+func (w *World) undoBare() bool { return w.undoLast(false) }
+
+// undoSlow is the text-UI command `undo slow`: the same WITHOUT BlockCommitInProgress(true) in front - BlockUndone runs
+// with sorting enabled, so every transaction it puts back is inserted into the BestT2S…WorstT2S list by AddToSort at once
+// (by its own fee rate) and unmined() re-flags its pooled children while that list is live. Any direct caller of
+// txpool.BlockUndone is in the same position.
+func (w *World) undoSlow() bool { return w.undoLast(true) }
+
+func (w *World) undoLast(slow bool) bool {
 	if w.dead || len(w.blocks) == 0 {
 		return false
 	}
 	w.steps++
-	w.mustOK("flag 1")
+	if !slow {
+		w.mustOK("flag 1")
+	}
 	uh := w.k.Ch.LastBlock().Height
 	w.pendOps = []func() string{func() string { return fmt.Sprintf("undo %d %d", uh, common.MinFeePerKB()) }}
 	w.confKey = ""
 	pan, hung := w.guarded("UndoLastBlock", func() {
-		txpool.BlockCommitInProgress(true)
+		if !slow {
+			txpool.BlockCommitInProgress(true)
+		}
 		w.inCommit = true
 		quiet(func() { w.k.Ch.UndoLastBlock() })
 		w.inCommit = false
@@ -671,7 +688,11 @@ func (w *World) undoBare() bool {
 		w.flushPend()
 		w.mustOK("flag 0")
 	}
-	w.r.Hit("op:undo-bare")
+	if slow {
+		w.r.Hit("op:undo-slow")
+	} else {
+		w.r.Hit("op:undo-bare")
+	}
 	if hung {
 		w.propFail("hang:undo", "undoing a block does not return (BlockUndone holds TxMutex)")
 		return false
@@ -796,23 +817,98 @@ func poolKeys() map[string]bool {
 	return m
 }
 
-// tickExpire ages the given pooled txs and runs Tick() with the expiry timer due.
+// expireAfter is the harness's TXPool.ExpireInDays (common.TxExpireAfter).
+const expireAfter = 14 * 24 * time.Hour
+
+// age moves the Lastseen of the given pooled records back by d (nobody has announced them for that long; all of the
+// pool = the node was switched off for d). No operation of the model: time only shows in which records the next expiry
+// tick picks, and the pool must carry every record - whatever its age - through all other operations (save and reload
+// included) until then.
+func (w *World) age(sel []*txInfo, d time.Duration) {
+	if w.dead {
+		return
+	}
+	now := time.Now().Unix()
+	txpool.TxMutex.Lock()
+	for _, ti := range sel {
+		t2s := txpool.TransactionsToSend[ti.tx.Hash.BIdx()]
+		if t2s == nil {
+			continue
+		}
+		base, ok := w.old[ti.tx.Hash.Hash]
+		if !ok || base > now {
+			base = now
+		}
+		ls := base - int64(d/time.Second)
+		if a := now - ls - int64(expireAfter/time.Second); a > -600 && a < 600 {
+			ls -= 3600 // stay clear of the limit itself: the code reads the clock a little later than the harness does
+		}
+		t2s.Lastseen = time.Unix(ls, 0)
+		w.old[ti.tx.Hash.Hash] = ls
+		if now-ls > int64(expireAfter/time.Second) {
+			w.r.Hit("aged:past-expiry")
+		} else {
+			w.r.Hit("aged:not-yet-expired")
+		}
+	}
+	txpool.TxMutex.Unlock()
+	w.r.Hit("op:age")
+}
+
+// ageRandom: a random part of the pool (or all of it) has not been seen for a random time around the expiry limit.
+func (w *World) ageRandom() {
+	pool := w.pooled()
+	if len(pool) == 0 {
+		return
+	}
+	spans := []time.Duration{7 * time.Hour, 6 * 24 * time.Hour, 13*24*time.Hour + 22*time.Hour, 14*24*time.Hour + 3*time.Hour, 15 * 24 * time.Hour, 40 * 24 * time.Hour, 400 * 24 * time.Hour}
+	d := spans[w.g.Intn(len(spans))]
+	if w.g.Chance(1, 4) {
+		w.age(pool, d) // offline for d
+		w.r.Hit("gen:aged-whole-pool")
+		return
+	}
+	var sel []*txInfo
+	for _, ti := range pool {
+		if w.g.Chance(1, 3) {
+			sel = append(sel, ti)
+		}
+	}
+	w.age(sel, d)
+}
+
+// expiredKeys: the pooled records that the harness's time ledger puts past the expiry limit (call with TxMutex locked).
+func (w *World) expiredKeys() (keys []string) {
+	now := time.Now().Unix()
+	for h, ls := range w.old {
+		if now-ls <= int64(expireAfter/time.Second) {
+			continue
+		}
+		if ti := w.txs[h]; ti != nil {
+			if _, ok := txpool.TransactionsToSend[ti.tx.Hash.BIdx()]; ok {
+				keys = append(keys, btc.BIdxString(ti.tx.Hash.BIdx()))
+			}
+		}
+	}
+	sort.Strings(keys)
+	return
+}
+
+// tickExpire ages the given pooled txs (not seen for 15 days) and runs Tick() with the expiry timer due: these and
+// every record aged past the limit before must go, each with its descendants.
 func (w *World) tickExpire(old []*txInfo) {
 	if w.dead {
 		return
 	}
 	w.steps++
-	var keys []string
-	txpool.TxMutex.Lock()
 	for _, ti := range old {
-		if t2s := txpool.TransactionsToSend[ti.tx.Hash.BIdx()]; t2s != nil {
-			t2s.Lastseen = time.Now().Add(-15 * 24 * time.Hour)
-			keys = append(keys, btc.BIdxString(ti.tx.Hash.BIdx()))
-		}
+		delete(w.old, ti.tx.Hash.Hash)
 	}
+	w.age(old, 15*24*time.Hour)
+	txpool.TxMutex.Lock()
+	keys := w.expiredKeys()
 	txpool.VerifExpireOnNextTick()
 	txpool.TxMutex.Unlock()
-	sort.Strings(keys)
 	w.mustOK(fmt.Sprintf("expire %d %s", len(keys), strings.Join(keys, " ")))
 	pan, hung := w.guarded("Tick", txpool.Tick)
 	w.r.Hit("op:tick-expire")
@@ -1087,6 +1183,11 @@ func (w *World) verify() {
 	defer prof("verify")()
 	txpool.TxMutex.Lock()
 	defer txpool.TxMutex.Unlock()
+	for h := range w.old { // a record that has left the pool takes its age with it (coming back it is a new record)
+		if ti := w.txs[h]; ti == nil || txpool.TransactionsToSend[ti.tx.Hash.BIdx()] == nil {
+			delete(w.old, h)
+		}
+	}
 
 	// the listing the node would mine / relay from (this also rebuilds the sorted list when it is dirty)
 	dirtyBefore := txpool.SortListDirty
